@@ -159,6 +159,80 @@ function __fresh(){ __buf = Buffer.from([1,2,3,4,5,6,7,8,9,10]); __url = new URL
 	}
 
 	receivers := []string{"", "", "", "undefined", "null", "({})", "1", `"s"`, "__buf", "__url", "__usp", "__it", "new Uint8Array(4)", "Buffer", "__timeout", "Object.create(Buffer.prototype)", "Object.create(URL.prototype)", "Object.create(URLSearchParams.prototype)"}
+
+	// ---- typed sweep: for the string-handling Buffer natives every combination of small pools of well-typed arguments
+	// (sizes x strings x encoding names) in the argument shapes these functions take. Random draws from the hostile alphabet
+	// almost never line up a positive size, a non-empty string that decodes to nothing and a binary encoding name.
+	sizes := []string{"0", "1", "4", "7", "100"}
+	strs := []string{`""`, `"a"`, `"zz"`, `"="`, `"abcd"`, `"%zz"`, `"é🙂"`, `"6162"`, `"YWJj"`, `"x".repeat(3000)`}
+	encs := []string{`"hex"`, `"base64"`, `"base64url"`, `"utf8"`, `"utf-8"`, `"nope"`, "undefined"}
+	var sweep [][2]string // target path, call expression
+	numericRW := func(p string) bool {
+		for _, pre := range []string{`["read`, `["write`} {
+			if i := strings.Index(p, pre); i >= 0 && len(p) > i+len(pre) && p[i+len(pre)] >= 'A' && p[i+len(pre)] <= 'Z' {
+				return true
+			}
+		}
+		return false
+	}
+	for _, t := range targets {
+		if !strings.HasPrefix(t.path, "Buffer") || numericRW(t.path) || strings.Contains(t.path, "getOwnPropertyDescriptor") {
+			continue
+		}
+		recv := t.recv
+		if recv == "" {
+			recv = "undefined"
+		}
+		mk := func(args ...string) {
+			if t.ctor {
+				sweep = append(sweep, [2]string{t.path, "new (" + t.path + ")(" + strings.Join(args, ", ") + ")"})
+			} else {
+				sweep = append(sweep, [2]string{t.path, "(" + t.path + ").call(" + strings.Join(append([]string{recv}, args...), ", ") + ")"})
+			}
+		}
+		for _, st := range strs {
+			for _, e := range encs {
+				mk(st, e) // from(string, enc), write(string, enc), byteLength
+				for _, z := range sizes {
+					mk(z, st, e) // alloc(size, fill, enc)
+				}
+				mk(st, "1", "2", e) // write(string, offset, length, enc)
+				mk(st, "0", e)      // write(string, offset, enc)
+			}
+		}
+		for _, e := range encs {
+			mk(e, "1", "3") // toString(enc, start, end)
+		}
+	}
+	if lib.Tier() != "thorough" && len(sweep) > 9000 {
+		sweep = sweep[:9000]
+	}
+	for _, sw := range sweep {
+		if hangs >= 3 {
+			break
+		}
+		script := "__fresh(); (function(){ try { " + sw[1] + "; return 'ok' } catch (e) { return 'throw' } })()"
+		lib.Breadcrumb(outPath, sw[1])
+		res, hung := call(script)
+		id := len(out.Cases)
+		desc := map[string]interface{}{"call": sw[1], "outcome": res.kind}
+		tags := []string{sw[0]}
+		switch {
+		case hung:
+			out.Fail(id, "hang", desc, tags...)
+			vm = newVM()
+		case res.kind == "panic":
+			desc["panic"] = res.msg
+			out.Fail(id, "go-panic-escaped", desc, tags...)
+			vm = newVM()
+		case res.kind == "uncaught":
+			desc["error"] = res.msg
+			out.Fail(id, "uncatchable-error", desc, tags...)
+		}
+		out.Add("crashed", desc, true, tags...)
+		out.Count("family", "typed-sweep")
+		out.Count("outcome", res.kind)
+	}
 	for c := 0; c < n; c++ {
 		if hangs >= 3 {
 			out.Notes = append(out.Notes, "stopped early: 3 calls hung")
